@@ -138,6 +138,19 @@ var wsContents = []string{"hello", "<b>bold</b> & more", "line\nbreak\ttab \"quo
 // JSON string can hold
 var wsSubIDs = []string{"e", "e", "sub id ", "q\"uote\\", "ctl\u0001\u007f", "<&>", "sep\u2028\u2029", "日本\U0001F600", "\t\n"}
 
+// wsClientSub: the subscription id of a client message is an opaque string; one
+// in three is wrapped in characters a parser might be tempted to normalise
+// (surrounding whitespace, quotes, control and multi-byte characters).
+func wsClientSub(t *rapid.T, base string) string {
+	switch rapid.IntRange(0, 5).Draw(t, "subform") {
+	case 0:
+		return rapid.SampledFrom([]string{" ", "\t", "\n", "\u00a0", "\u2028", "A"}).Draw(t, "subpre") + base
+	case 1:
+		return base + rapid.SampledFrom(wsSubIDs).Draw(t, "subsuf")
+	}
+	return base
+}
+
 func genWSMsg(t *rapid.T, c *WSCase, i int) *simrt.Msg {
 	mkEv := func(kind int64) *simrt.EvSpec {
 		e := simrt.EvSpec{Author: rapid.IntRange(0, 3).Draw(t, "author"), Kind: kind, CreatedAt: int64(rapid.IntRange(0, 2000000000).Draw(t, "created_at")),
@@ -165,7 +178,7 @@ func genWSMsg(t *rapid.T, c *WSCase, i int) *simrt.Msg {
 	case 0, 1, 2, 3:
 		return &simrt.Msg{T: "EVENT", Ev: mkEv(rapid.SampledFrom([]int64{0, 1, 5, 7, 10002, 20001, 30000, 65535}).Draw(t, "kind"))}
 	case 4, 5, 6:
-		m := &simrt.Msg{T: "REQ", Sub: fmt.Sprintf("sub%d", i)}
+		m := &simrt.Msg{T: "REQ", Sub: wsClientSub(t, fmt.Sprintf("sub%d", i))}
 		for j, n := 0, rapid.IntRange(1, 2).Draw(t, "nf"); j < n; j++ {
 			f := simrt.FilterSpec{}
 			i64 := func(v int) *int64 { x := int64(v); return &x }
@@ -200,9 +213,9 @@ func genWSMsg(t *rapid.T, c *WSCase, i int) *simrt.Msg {
 		}
 		return m
 	case 7:
-		return &simrt.Msg{T: "CLOSE", Sub: fmt.Sprintf("sub%d", rapid.IntRange(0, 9).Draw(t, "csub"))}
+		return &simrt.Msg{T: "CLOSE", Sub: wsClientSub(t, fmt.Sprintf("sub%d", rapid.IntRange(0, 9).Draw(t, "csub")))}
 	case 8:
-		return &simrt.Msg{T: "COUNT", Sub: fmt.Sprintf("cnt%d", i), Filters: []simrt.FilterSpec{{Kinds: []int64{1}}}}
+		return &simrt.Msg{T: "COUNT", Sub: wsClientSub(t, fmt.Sprintf("cnt%d", i)), Filters: []simrt.FilterSpec{{Kinds: []int64{1}}}}
 	default:
 		return &simrt.Msg{T: "AUTH", Ev: mkEv(22242)}
 	}
